@@ -458,8 +458,8 @@ def run(ctx, model_ok):
         env_ops = [f"append@env:{n_}={v_}" for n_ in sorted(env_names) if not n_.startswith("DATASHARD_S3_") and n_ != "DATASHARD_STORAGE_TYPE"
                    for v_ in ("0", "false", "no")]
         rep.extra["environment_switches_pinned_off"] = sorted({o_.split(":")[1].split("=")[0] for o_ in env_ops})
-        for op in ["create", "append", "append2", "delfiles", "expire", "delsnap", "gc", "recreate", "append@tmpfs", "append-prebuilt"] + env_ops:
-            for n in (priors if op not in ("create", "recreate", "append@tmpfs", "append-prebuilt") and not op.startswith("append@env:") else ([0] if op == "create" else [1])):
+        for op in ["create", "append", "append2", "delfiles", "expire", "delsnap", "gc", "recreate", "append@tmpfs", "append-prebuilt", "append-prebuilt-requeued"] + env_ops:
+            for n in (priors if op not in ("create", "recreate", "append@tmpfs", "append-prebuilt", "append-prebuilt-requeued") and not op.startswith("append@env:") else ([0] if op == "create" else [1])):
                 _trace_and_judge(ctx, rep, op, n, base, model_ok)
         _shared_handle_overlap(ctx, rep, base, model_ok)
         _fsync_faults(ctx, rep, base)
